@@ -493,20 +493,23 @@ package redis
 //@   callpre field:client.onRedirection @only-moved-or-ask-errors-are-redirected arg0 == req && arg1 == v && isredirection(v)
 
 //@ func (*upstream).handleRedirection
-//@   prop C04 C11 C02
+//@   prop C04 C11 C02 C07
 //@   consumes req
 //@   requires u != nil && req != nil && resp != nil && req.body != nil && len(req.body.Array) >= 1
 //@   requires @only-called-for-moved-or-ask nfields(str(resp.Text), " ") >= 1 ==> lower(field(str(resp.Text), " ", 0)) == "moved" || lower(field(str(resp.Text), " ", 0)) == "ask"
-//@   modifies all, smhas, smval, mrthCount, mrthAddr, mrthReq, mrthCmd, mrthPrevAddr, mrthPrevCmd
+//@   modifies all, smhas, smval, mrthCount, mrthAddr, mrthReq, mrthCmd, mrthPrevAddr, mrthPrevCmd, trigcount
 //@   let txt = str(resp.Text)
+//@   ensures @a-followed-redirection-triggers-a-slot-refresh nfields(txt, " ") >= 3 ==> trigcount == old(trigcount) + 1
 //@   ensures @moved-is-resent-once-to-the-named-node nfields(txt, " ") >= 3 && lower(field(txt, " ", 0)) == "moved" ==> mrthCount == old(mrthCount) + 1 && mrthAddr == field(txt, " ", 2) && mrthReq == req
 //@   ensures @ask-sends-asking-then-the-command-to-the-named-node nfields(txt, " ") >= 3 && lower(field(txt, " ", 0)) == "ask" ==> mrthCount == old(mrthCount) + 2 && mrthAddr == field(txt, " ", 2) && mrthReq == req && mrthPrevAddr == field(txt, " ", 2) && mrthPrevCmd == "asking"
 //@   ensures @malformed-redirection-is-not-forwarded nfields(txt, " ") < 3 ==> mrthCount == old(mrthCount)
 
 //@ func (*upstream).handleClusterDown
-//@   prop C04 C11 C02
+//@   prop C04 C11 C02 C07
 //@   consumes req
 //@   requires u != nil && req != nil && resp != nil
+//@   modifies all, trigcount
+//@   ensures @cluster-down-triggers-a-slot-refresh trigcount == old(trigcount) + 1
 
 //@ func (*upstream).doSlotsRefresh
 //@   prop C11 C07
@@ -692,7 +695,7 @@ package redis
 //@   ensures @done-closed-on-every-return closed(s.done)
 
 //@ func (*client).Start
-//@   prop C09 C02
+//@   prop C09 C02 C07
 //@   requires c != nil && c.done != nil && !closed(c.done)
 //@   callpre drainRequests @the-final-drain-runs-after-the-writer-has-finished waitedfor(writeDone)
 //@   modifies all
@@ -724,6 +727,8 @@ package redis
 
 //@ func (*upstream).getClient
 //@   prop C07 C02
+//@   established newUpstream,(*upstream).updateClients upstream.clients @published clientsok(u)
+//@   established @before:createClient newUpstream,(*upstream).updateClients upstream.clients @published clientsok(u)
 //@   requires @pending-calls-wellformed forall k string :: smhas[u.createClientCalls][k] ==> typeis(smval[u.createClientCalls][k], "*createClientCall") && ifaceptr(smval[u.createClientCalls][k], "*createClientCall") != nil && ifaceptr(smval[u.createClientCalls][k], "*createClientCall").done != nil
 //@   modifies all, smhas, smval
 //@   ensures @client-or-error result1 == nil ==> result0 != nil
@@ -778,7 +783,8 @@ package redis
 // ---- C19: the proxy sizes its hot key collector with a positive capacity ------------------------------
 
 //@ func newUpstream
-//@   prop C19
+//@   prop C19 C07
+//@   ensures @published clientsok(result)
 //@   requires @hosts-present-one-per-address (forall k int :: 0 <= k && k < len(hosts) ==> hosts[k] != nil) && forall a int, b int :: 0 <= a && a < b && b < len(hosts) ==> hosts[a].Addr != hosts[b].Addr
 //@   callpre NewCollector @hot-key-capacity-at-least-one arg0 >= 1
 
@@ -827,3 +833,102 @@ package redis
 //@   prop C20
 //@   requires r != nil
 //@   modifies nothing
+
+
+// ---- C07: finished clients leave the table; failed refreshes are retried ---------------------------------
+
+//@ func (*upstream).triggerSlotsRefresh
+//@   prop C07
+//@   requires u != nil
+//@   modifies all, trigcount
+//@   ghostdef trigcount == old(trigcount) + 1
+
+//@ func (*upstream).refreshSlots
+//@   prop C07
+//@   requires u != nil
+//@   modifies all, trigcount
+//@   callpre triggerSlotsRefresh @only-a-failed-refresh-is-retried err != nil
+//@   ensures @at-most-one-retry trigcount == old(trigcount) || trigcount == old(trigcount) + 1
+
+//@ func (*upstream).loadClients
+//@   prop C07
+//@   requires clientsok(u)
+//@   modifies nothing
+//@   ensures @the-current-table result == clientsof(u)
+
+//@ func (*upstream).cloneClients
+//@   prop C07
+//@   requires clientsok(u)
+//@   modifies nothing
+//@   ensures @a-private-copy result != nil && fresh(result) && forall k string :: has(result, k) == has(clientsof(u), k) && (has(result, k) ==> result[k] == clientsof(u)[k])
+//@   loop 0 invariant cpy != nil && fresh(cpy) && clients == clientsof(u) && forall k string :: has(cpy, k) ==> has(clients, k) && cpy[k] == clients[k]
+//@   loop 0 invariant forall k string :: has(visited0, k) ==> has(cpy, k)
+
+//@ func (*upstream).updateClients
+//@   prop C07
+//@   requires u != nil && clients != nil && forall k string :: has(clients, k) ==> clients[k] != nil
+//@   modifies aval
+//@   ensures @published clientsok(u) && clientsof(u) == clients
+
+//@ func (*upstream).removeClientLocked
+//@   prop C07
+//@   requires clientsok(u)
+//@   modifies aval
+//@   ensures @the-address-has-no-client-any-more clientsok(u) && !has(clientsof(u), addr)
+//@   ensures @other-clients-stay forall k string :: k != addr ==> has(clientsof(u), k) == old(has(clientsof(u), k)) && (has(clientsof(u), k) ==> clientsof(u)[k] == old(clientsof(u)[k]))
+
+//@ func (*upstream).removeClient
+//@   prop C07
+//@   requires clientsok(u)
+//@   modifies aval
+//@   ensures @the-address-has-no-client-any-more clientsok(u) && !has(clientsof(u), addr)
+//@   ensures @other-clients-stay forall k string :: k != addr ==> has(clientsof(u), k) == old(has(clientsof(u), k)) && (has(clientsof(u), k) ==> clientsof(u)[k] == old(clientsof(u)[k]))
+
+//@ func (*upstream).addClientLocked
+//@   prop C07
+//@   requires clientsok(u) && c != nil
+//@   modifies aval
+//@   ensures @registered clientsok(u) && has(clientsof(u), addr) && clientsof(u)[addr] == c
+//@   ensures @other-clients-stay forall k string :: k != addr ==> has(clientsof(u), k) == old(has(clientsof(u), k)) && (has(clientsof(u), k) ==> clientsof(u)[k] == old(clientsof(u)[k]))
+
+//@ func (*upstream).createClient$1
+//@   prop C07
+//@   requires deref(c) != nil && deref(c).done != nil
+//@   assume !closed(deref(c).done)
+//@   modifies all
+//@   callpre removeClient @a-client-that-has-finished-leaves-the-table closed(old(deref(c)).done) && arg1 == old(deref(addr))
+//@   established @before:removeClient newUpstream,(*upstream).updateClients upstream.clients @published clientsok(deref(u))
+
+//@ func newClient
+//@   prop C07 C09
+//@   modifies all
+//@   ensures @a-new-client-has-its-done-channel result1 == nil ==> result0 != nil && result0.done != nil
+
+//@ func (*upstream).createClient
+//@   prop C07
+//@   requires clientsok(u)
+//@   assume u.cfg != nil && u.cfg.ConnectTimeout != nil && u.hkc != nil
+//@   modifies all
+//@   assume @before:AllocCounter u.hkc.counters != nil && forall n string :: has(u.hkc.counters, n) ==> u.hkc.counters[n] != nil && cinvmap(u.hkc.counters[n])
+//@   established @before:addClientLocked newUpstream,(*upstream).updateClients upstream.clients @published clientsok(u)
+//@   ensures @a-created-client-is-registered-under-its-address result1 == nil ==> result0 != nil && clientsok(u) && has(clientsof(u), addr) && clientsof(u)[addr] == result0
+
+//@ func newStringArray
+//@   prop C07 C01
+//@   modifies nothing
+//@   ensures @one-bulk-string-per-argument result != nil && fresh(result) && result.Type == 42 && len(result.Array) == len(str) && forall k int :: 0 <= k && k < len(str) ==> result.Array[k].Type == 36 && str(result.Array[k].Text) == str[k]
+//@   loop 0 invariant len(arr) == len(str) && fresh(arr) && forall k int :: 0 <= k && k <= rangeindex ==> arr[k].Type == 36 && str(arr[k].Text) == str[k]
+
+//@ func (*upstream).resetAllClients
+//@   prop C07
+//@   requires clientsok(u)
+//@   modifies all
+//@   established @ret newUpstream,(*upstream).updateClients upstream.clients @published clientsok(u)
+//@   ensures @the-table-is-wellformed-afterwards clientsok(u)
+
+//@ func (*upstream).loopRefreshSlots
+//@   prop C07
+//@   requires u != nil
+//@   modifies all, trigcount
+//@   callpre refreshSlots @the-first-refresh-is-triggered-at-once-and-every-wakeup-refreshes trigcount >= old(trigcount) + 1
+//@   loop 0 invariant trigcount >= old(trigcount) + 1
